@@ -12,19 +12,34 @@ use crate::DiffOp;
 
 // ---- H1: virtual clock ---------------------------------------------------
 
+use crate::deadline_support::Instant;
+
 thread_local! {
-    static CLOCK: RefCell<Option<Box<dyn FnMut() -> bool>>> = RefCell::new(None);
+    static CLOCK: RefCell<Option<Box<dyn FnMut(Instant) -> bool>>> = RefCell::new(None);
+    static NOW: RefCell<Option<Box<dyn FnMut() -> Instant>>> = RefCell::new(None);
 }
 
 /// Installs (or removes) the oracle that answers every deadline probe made
-/// on this thread while a deadline is present.
-pub fn set_clock(f: Option<Box<dyn FnMut() -> bool>>) {
+/// on this thread while a deadline is present.  The oracle is handed the
+/// deadline that is being checked.
+pub fn set_clock(f: Option<Box<dyn FnMut(Instant) -> bool>>) {
     CLOCK.with(|c| *c.borrow_mut() = f);
 }
 
+/// Installs (or removes) the source of "now" used when a relative timeout is
+/// turned into an absolute deadline.
+pub fn set_now(f: Option<Box<dyn FnMut() -> Instant>>) {
+    NOW.with(|c| *c.borrow_mut() = f);
+}
+
 /// Consulted by `deadline_exceeded` when a deadline is present.
-pub(crate) fn clock_probe() -> Option<bool> {
-    CLOCK.with(|c| c.borrow_mut().as_mut().map(|f| f()))
+pub(crate) fn clock_probe(deadline: Instant) -> Option<bool> {
+    CLOCK.with(|c| c.borrow_mut().as_mut().map(|f| f(deadline)))
+}
+
+/// Consulted by `duration_to_deadline`.
+pub(crate) fn virtual_now() -> Option<Instant> {
+    NOW.with(|c| c.borrow_mut().as_mut().map(|f| f()))
 }
 
 // ---- H2: compaction swap counter / repair switch ---------------------------
